@@ -104,3 +104,32 @@ func (v *VerifLister) Recv(stop <-chan struct{}) (list runtime.Object, err error
 func (v *VerifLister) Done() <-chan struct{} { return v.l.Done() }
 
 func (v *VerifLister) Error() error { return v.l.Error() }
+
+// VerifSource is a hand-driven publisher: a subscription whose ready channel,
+// event input and shutdown the harness controls, behind a real publisher.
+type VerifSource struct {
+	Controller
+	sub    subscription
+	readyc chan struct{}
+	stopc  chan struct{}
+	cache  *VerifCacheActor
+}
+
+func NewVerifSource(ctx context.Context, log logutil.Log, f filter.Filter) *VerifSource {
+	stopc := make(chan struct{})
+	readyc := make(chan struct{})
+	cache := NewVerifCacheActor(ctx, log, stopc, f)
+	sub := newSubscription(log, stopc, readyc, cache.c)
+	return &VerifSource{newPublisher(log, sub), sub, readyc, stopc, cache}
+}
+
+// Send hands an event to the source subscription (as controller.distributeEvents does).
+func (s *VerifSource) Send(evt Event) error { return s.sub.send(evt) }
+
+// MakeReady closes the ready channel.
+func (s *VerifSource) MakeReady() { close(s.readyc) }
+
+// Stop shuts the source down (as the owning controller's lifecycle would).
+func (s *VerifSource) Stop() { close(s.stopc) }
+
+func (s *VerifSource) CacheActor() *VerifCacheActor { return s.cache }
